@@ -13,3 +13,5 @@ CONSTANTS
   InitKinds = "any"
   WithDrain = TRUE
   PartFix = TRUE
+  SubAt = "first"
+  SyncSteps = FALSE
